@@ -350,7 +350,7 @@ def run_property(prop, tier, seed, replay, t0):
         return 2
     cfg = props[prop]
     units = cfg["units"]
-    ev = {"property_id": prop, "tier": tier, "seed": seed, "level": "proof", "coverage": {}, "assumptions": [], "wall_s": 0.0, "violations": 0}
+    ev = {"property_id": prop, "tier": tier, "seed": seed, "level": cfg.get("level", "proof"), "coverage": {}, "assumptions": [], "wall_s": 0.0, "violations": 0}
     try:
         ensure_extractor()
         gens = {}
